@@ -393,11 +393,16 @@ func genScenario(name string, c08, dev bool) *netctl.Scenario {
 				cfgNames = cfgNames[:1]
 			}
 			cfg := cfgs[x.ChooseOf("cfg", cfgNames)]
-			envNames := []string{"-", "add-partition", "move-coordinator", "delete-t2"}
+			envNames, envLetters := []string{"-", "add-partition", "move-coordinator", "delete-t2"}, "-PMD"
 			if dev {
-				envNames = envNames[:1]
+				envNames, envLetters = envNames[:1], "-"
 			}
-			env := "-PMD"[x.ChooseOf("env", envNames)]
+			if c08 && size != "one" {
+				// Record volume: a later wave of records lands while the members
+				// are between polls (C08 only: irrelevant to ownership).
+				envNames, envLetters = append(envNames, "produce-wave"), envLetters+"W"
+			}
+			env := envLetters[x.ChooseOf("env", envNames)]
 			// Sizes per configuration.
 			// quick: A every script of <= 2 calls (no pause), B one of {-, p, t,
 			//   L, X}, B's gate one of {with A, after A's join, after A's last
@@ -546,6 +551,12 @@ func genScenario(name string, c08, dev bool) *netctl.Scenario {
 						if err := g.DeleteTopic("t2"); err != nil {
 							x.Violate("harness:delete-topic", "%v", err)
 						}
+					case 'W':
+						// More records arrive while the members are between
+						// polls: what a client prefetched before is now only
+						// part of the log.
+						g.Step(t, "produce-wave")
+						g.Preload("t", 3, 2)
 					}
 				})
 			}
@@ -611,6 +622,26 @@ func genScenario(name string, c08, dev bool) *netctl.Scenario {
 				Owners(cbs, once)
 				x.Observe("%s", Outcome(cbs))
 				return
+			}
+			// The application keeps consuming: every live member polls on until
+			// two polls in a row bring nothing (bounded). Whatever the scripts
+			// and the rebalances left behind is then polled, promoted and
+			// committed, so a commit that jumps over records nobody received
+			// (e.g. a discarded prefetch that moved a kept partition's cursor)
+			// becomes visible to oracles (i) and (ii) in every execution.
+			for _, m := range g.Live() {
+				cl := g.Client(m)
+				for i, empty := 0, 0; i < 16 && empty < 2; i++ {
+					p := g.PollOnce(m, cl, 2, genPoll)
+					if st.cfg.block {
+						cl.AllowRebalance()
+					}
+					if len(p.Recs) == 0 {
+						empty++
+					} else {
+						empty = 0
+					}
+				}
 			}
 			if st.cfg.auto {
 				time.Sleep(2*genAutoCommit + 100*time.Millisecond)
